@@ -115,6 +115,33 @@ def triple_family(rng, n):
     return progs
 
 
+def held_reader_family():
+    """Two readers of one offloaded generation against a writer that supersedes it and flushes:
+    one reader holds its pin while the retirement pass runs, the other arrives late and is turned
+    away.  Preemptions only where a reader stands between its index lookup and its device read."""
+    progs = []
+    big = {"k": "b", "id": 4, "len": 5000, "n": 0}
+    one = {"k": "b", "id": 6, "len": 900, "n": 0}
+    nv = {"k": "b", "id": 7, "len": 1200, "n": 0}
+    points = ["rd_pinned", "rd_sector", "get_read", "resolve_cache", "resolve_retry", "range_slot", "cas_read", "inc_read"]
+    for cache in (False, True):
+        cfg = {"pers": True, "ttl": True, "lim": -1, "cache": cache, "blocks": 24}
+        for tag, val in (("multi", big), ("single", one)):
+            init = [{"op": "insert", "k": 1, "v": val, "auto": False, "tsv": NOW - 10 * E9}, {"op": "flush"}]
+            readers = {"get": [{"op": "get", "k": 1}],
+                       "range": [{"op": "range", "lo": 1, "hi": 2, "lim": 3}],
+                       "cas": [{"op": "cas", "k": 1, "x": val, "v": nv}]}
+            writers = {"delete": [{"op": "delete", "k": 1}, {"op": "flush"}],
+                       "update": [{"op": "insert", "k": 1, "v": nv}, {"op": "flush"}],
+                       "ttl": [{"op": "update_ttl", "k": 1, "ttlv": 70}, {"op": "flush"}, {"op": "flush"}]}
+            for ra, rb in (("get", "get"), ("get", "range"), ("range", "get"), ("get", "cas")):
+                for wn, w in writers.items():
+                    progs.append(("held_%s_%s_%s_%s_%s" % (tag, "c" if cache else "n", ra, rb, wn),
+                                  {"cfg": cfg, "keys": ["k1", "k2"], "init": init, "points": points,
+                                   "threads": [readers[ra], readers[rb], w]}))
+    return progs
+
+
 def run_dfs(fxv, rd, progs, tag, chunk=40, maxsched=300, preempt=2, par=12):
     """Execute every program's schedules; returns list of (trace, info)."""
     groups = [progs[i:i + chunk] for i in range(0, len(progs), chunk)]
